@@ -118,13 +118,20 @@ class Check:
             tp = os.path.join(WORK, "camp_%s_%d_%d.trace" % (self.prop, os.getpid(), i))
             sp = tp + ".stats"
             pr = subprocess.Popen([DRIVE_BIN, "--seed", str(seed), "--count", str(count), "--profile", profile,
-                                   "--out", tp, "--stats", sp], stdout=subprocess.DEVNULL, stderr=subprocess.PIPE, env=ENV)
+                                   "--out", tp, "--stats", sp, "--journal", tp + ".journal"],
+                                  stdout=subprocess.DEVNULL, stderr=subprocess.PIPE, env=ENV)
             procs.append((pr, tp, sp, profile, seed))
         for pr, tp, sp, profile, seed in procs:
             _, err = pr.communicate()
+            jp = tp + ".journal"
             if pr.returncode != 0:
-                self.problems.append(("infra", "drive crashed (profile %s seed %d): %s" % (profile, seed, err.decode()[-800:])))
+                self.crashed(jp, profile, seed, err.decode())
+                for f in (tp, sp, jp):
+                    if os.path.exists(f):
+                        os.unlink(f)
                 continue
+            if os.path.exists(jp):
+                os.unlink(jp)
             trace = open(tp).read()
             out = run([MODEL_BIN, "replay"], inp=trace).stdout
             stats = json.load(open(sp)) if os.path.exists(sp) else None
@@ -133,6 +140,43 @@ class Check:
             if os.path.exists(sp):
                 os.unlink(sp)
         return results
+
+    def crashed(self, journal, profile, seed, err):
+        """The driver process died (a panic that cannot unwind aborts it): the journal holds the history."""
+        panic_lines = [l for l in err.splitlines() if l.startswith("PANIC ")]
+        why = (panic_lines[0] if panic_lines else err[-300:]).strip()
+        text = open(journal).read() if os.path.exists(journal) else ""
+        ops = [l for l in text.splitlines() if l.startswith("O ")]
+        if not ops or "C13" not in set(self.cfg.get("monitors", [])):
+            self.problems.append(("infra", "drive crashed (profile %s seed %d): %s" % (profile, seed, err[-800:])))
+            return
+        head = [l for l in text.splitlines() if l.startswith("H ") or l.startswith("L ")]
+        sig = "panic:" + re.sub(r"[0-9]+", "N", re.sub(r"`[^`]*`", "`..`", why))[:160]
+        if any(v.get("signature") == sig for v in self.violations):
+            return
+        # shrink: drop operations while the replay still kills the process
+        def dies(opl):
+            rp = os.path.join(WORK, "crash_%d.ops" % os.getpid())
+            open(rp, "w").write("\n".join(head + opl + ["E"]) + "\n")
+            p = run([DRIVE_BIN, "--replay", rp, "--out", os.devnull], env=ENV)
+            os.unlink(rp)
+            return p.returncode != 0
+        confirmed = dies(ops)
+        if confirmed:
+            i, budget = 0, 80
+            while i < len(ops) - 1 and budget > 0:
+                budget -= 1
+                cand = ops[:i] + ops[i + 1:]
+                if dies(cand):
+                    ops = cand
+                else:
+                    i += 1
+        body = "\n".join(head + ops + ["E"]) + "\n"
+        path = self.save_replay("%s-%s.ops" % (self.prop, hashlib.sha1(sig.encode()).hexdigest()[:10]),
+                                "# C13: the library panicked and the process aborted: %s\n# replay: tools/replay.sh <this file>  (%s)\n%s"
+                                % (why, "re-run confirmed the crash" if confirmed else "crash NOT reproduced on re-run", body))
+        self.problems.append(("monitor", "the library panicked (profile %s seed %d): %s" % (profile, seed, why)))
+        self.violations.append({"replay": path, "signature": sig, "why": why})
 
     # ---------------------------------------------------------------- decide
     def save_replay(self, name, text):
@@ -289,8 +333,19 @@ class Check:
         if panics:
             self.problems.append(("monitor", "%d panics observed in the library during the campaign" % panics))
             if "C13" in monitors:
-                path = self.save_replay("%s-panics.txt" % self.prop, "%d panics in library threads during the campaign (see stderr of tools/replay.sh on the campaign seeds)\n" % panics)
-                self.violations.append({"replay": path, "signature": "panic", "why": "panic in the library"})
+                done = False
+                for trace, out, stats, label in results:
+                    for hid in (stats or {}).get("panic_histories", []):
+                        blocks = {block_id(b): b for b in split_blocks(trace)}
+                        if hid in blocks and not done:
+                            done = True
+                            path = self.save_replay("%s-thread-panic.ops" % self.prop,
+                                                    "# C13: a thread of the library panicked during this history (%s)\n# replay: tools/replay.sh <this file>\n%s"
+                                                    % (label, make_replay(blocks[hid])))
+                            self.violations.append({"replay": path, "signature": "panic:thread", "why": "panic in a library thread"})
+                if not done:
+                    path = self.save_replay("%s-panics.txt" % self.prop, "%d panics in library threads during the campaign\n" % panics)
+                    self.violations.append({"replay": path, "signature": "panic", "why": "panic in the library"})
         if net_under_lock and "C12" in monitors:
             path = self.save_replay("%s-net-under-lock.txt" % self.prop, "%d network callbacks were entered while the calling thread held the state lock\n" % net_under_lock)
             self.violations.append({"replay": path, "signature": "net-under-lock", "why": "network callback under the state lock"})
